@@ -270,8 +270,11 @@ def update_entry_for_path(path, e, hashes=None, expected_dev=None,
         # 5. skip checksums if file has not changed since the last time
         #    (and st_size makes sense)
         st_mtime = next(g)
+        #    (and st_size makes sense, and the entry has the hashes
+        #    that were asked for)
         if (last_mtime is not None and st_mtime <= last_mtime
-                and st_size != 0 and st_size == e.size):
+                and st_size != 0 and st_size == e.size
+                and frozenset(e.checksums) == frozenset(hashes)):
             return False
 
         # 6. get the checksums and real size
